@@ -14,6 +14,8 @@
       scale        dt*lam, amplitudes/lam, omega/lam, lam = 10^k, k = -9..9: propagators unchanged,
                    control matrix * lam, filter function * lam^2, infidelity unchanged for S/lam
       scale-split  the two composed
+      scale-requery  the rescaled pulse object is first queried on a different grid of the same size (cache tests of the
+                   getters must be dimensionless as well)
       linear-op / linear-sens / linear-const   control matrix linear in noise operators and sensitivities
     Observables: propagators at the common edges, total_propagator, get_control_matrix,
     get_filter_function (fidelity; generalized on a subset), infidelity on a positive sorted grid.
@@ -179,6 +181,12 @@ def apply_transform(spec, om, tr):
     elif kind == 'scale':
         lam = 10.0 ** int(tr['k'])
         out['new'], out['om_new'], out['lam'] = t_scale(spec, lam), om / lam, lam
+    elif kind == 'scale-requery':
+        # rescaled pulse, ONE object queried first on another grid of the same size (the getters' cache test must be
+        # dimensionless too: frequencies of order 1e-9 in the new unit are still different frequencies)
+        lam = 10.0 ** int(tr['k'])
+        out['new'], out['om_new'], out['lam'] = t_scale(spec, lam), om / lam, lam
+        out['pre_om'] = (om[::-1] * 1.37 + 0.11) / lam
     elif kind == 'scale-split':
         lam = 10.0 ** int(tr['k'])
         s2, out['edges'] = t_split(spec, tr['g'], tr['fracs'])
@@ -252,12 +260,16 @@ def traces_diag_abs_sum(basis, d):
     return float(np.abs(t1 - t2).sum() / d)
 
 
-def observe(spec, om, kw, want_gen, om_pos=None, S=None):
-    """all observables of one side, each group from its own fresh PulseSequence"""
+def observe(spec, om, kw, want_gen, om_pos=None, S=None, pre_om=None):
+    """all observables of one side, each group from its own fresh PulseSequence (pre_om: the object is first queried on
+    that other grid of the same size, then control matrix and filter function are taken from the SAME object)"""
     p = mk(spec, **kw)
     out = dict(pulse=p)
     out['props'] = np.array(p.propagators)
     out['total'] = np.array(p.total_propagator)
+    if pre_om is not None:
+        p.get_control_matrix(pre_om)
+        p.get_filter_function(pre_om)
     out['B'] = np.array(p.get_control_matrix(om))
     out['F'] = np.array(p.get_filter_function(om))
     out['c_ids'] = [str(x) for x in p.c_oper_identifiers]
@@ -293,7 +305,7 @@ def compare(spec, om, tr, want_gen=False, want_infid=True, cache=None):
         if key is not None:
             cache[key] = old
     new = observe(T['new'], T['om_new'], T['new_kw'], want_gen,
-                  None if om_pos is None else om_pos / lam, None if S is None else S / lam)
+                  None if om_pos is None else om_pos / lam, None if S is None else S / lam, pre_om=T.get('pre_om'))
     bad = []
     info = dict(nontrivial=bool(np.any(old['B'] != 0)), exact_cols=0, window_cols=0, ratio=0.0, rel_exact=0.0)
     rows = T['rows']
@@ -593,6 +605,7 @@ def transformations(r, i, spec, tags):
         trs.append(dict(kind='scale', k=LAMS_K[(3 * i + j) % len(LAMS_K)]))
     s = tr_split(r, spec, tags)
     trs.append(dict(kind='scale-split', k=LAMS_K[(7 * i + 5) % len(LAMS_K)], g=s['g'], fracs=s['fracs']))
+    trs.append(dict(kind='scale-requery', k=[9, -9, 9, 8, 9, -6, 9, 0][i % 8]))
     trs.append(tr_linear(r, spec, i % 3))
     trs.append(tr_linear(r, spec, (i + 1) % 3))
     return trs
@@ -812,6 +825,8 @@ def search_transformations(r, i, spec, tags):
     trs = []
     for k in LAMS_K:
         trs.append(dict(kind='scale', k=k))
+    for k in (9, -9, 8):
+        trs.append(dict(kind='scale-requery', k=k))
     for k in LAMS_K[::2]:
         s = tr_split(r, spec, tags, extreme=True)
         trs.append(dict(kind='scale-split', k=k, g=s['g'], fracs=s['fracs']))
